@@ -42,6 +42,16 @@ CHECKS = {
          "open/iterable shims and every recorded trace is validated against the protocol by TLC.",
     note="BaseExceptions and failures of close() are not injected; an exception from the caller's iterable may surface wrapped or not",
     technique="TLA+ protocol model (ApiDump.tla) checked with TLC + trace validation of real dump_one/dump_many/write_input executions with fault injection"),
+ "C13": dict(
+    category="model_checking", design_ref="DESIGN.md section 6 C13",
+    text="TLC checks NoLeakedFd, PrefixInOrder, NeverSkips, BadFrameIsLoadError, NoPartialWithoutNotice and termination of the "
+         "ApiLoad protocol (frames ok/bad/cut, discarded iterators) and LazyExactlyOnce/ReturnMeansComplete of ApiDump; real "
+         "dump_many (list/iterator/generator inputs) and load_many/load_one executions on generated and independently rendered "
+         "trajectories (xyz, extxyz, pdb, mol2, sdf, gro) incl. truncation at every line, a corrupted numeric field or count in "
+         "every frame, trailing blank lines and discarded iterators are validated event by event; each yielded frame is compared "
+         "with a single-frame save/reload of that frame.",
+    note="MOL2 cuts between optional sections and PDB fragments without ATOM records are treated as valid shorter files; FCHK trajectories not frame-sequential (see C07/C16)",
+    technique="TLA+ protocol models (ApiLoad.tla, ApiDump.tla) checked with TLC + trace validation of real load_many/dump_many executions with truncation and corruption"),
 }
 NOT_YET = "check not built yet in this round (planned, see DESIGN.md section 6)"
 
